@@ -65,6 +65,10 @@ static void asm_build_index_tables() {
 assemblyline_t asm_create_instance(uint8_t *buffer, int len) {
 
   assemblyline_t al = malloc(sizeof(struct assemblyline));
+  if (al == NULL) {
+    fprintf(stderr, "failed to allocate an assemblyline instance\n");
+    return NULL;
+  }
   al->offset = 0;
   al->assembly_opt = DEFAULT;
   // allocate buffer internally if not directly given
